@@ -77,7 +77,10 @@ def sig_with_meta(rng):
         meta['indexes'] = idx
     if rng.random() < 0.4:
         meta['unique_together'] = [('a', 'b')]
-    attrs = {'__module__': 'vapp.models', 'a': models.IntegerField(null=rng.random() < 0.5),
+    attrs = {'__module__': 'vapp.models',
+             # column names beyond ASCII (Latin-1 range and above): legacy pickled rows store them as raw bytes
+             'a': models.IntegerField(null=rng.random() < 0.5,
+                                      db_column=rng.choice([None, None, 'num\u00e9ro', 'stra\u00dfe_x', 'c\u4e2d'])),
              'b': models.CharField(max_length=rng.choice([10, 20]), db_index=rng.random() < 0.5),
              'Meta': type('Meta', (), meta)}
     m = type('Alpha', (models.Model,), attrs)
@@ -257,6 +260,23 @@ def run(ctx):
             ctx.count('v1_roundtrip')
             if not same:
                 ctx.fail(None, 'a version-1 signature does not load to the same logical content', rep)
+            # ... and as a legacy ROW: the pickled text that old releases stored in django_project_version
+            from django.db import connection
+            from django_evolution.compat.py23 import pickle_dumps
+            legacy_text = pickle_dumps(sig.serialize(sig_version=1))
+            with connection.cursor() as cur:
+                cur.execute('UPDATE django_project_version SET signature = %s WHERE id = %s', [legacy_text, ver.pk])
+            try:
+                row = Version.objects.get(pk=ver.pk).signature
+            except Exception as e:
+                ctx.fail(None, 'a legacy (pickled, version 1) row does not load: %s' % type(e).__name__, rep)
+                continue
+            mc = row.get_app_sig('vapp').get_model_sig('Alpha')
+            ctx.count('v1_legacy_row%s' % (':non_ascii' if any(ord(ch) > 127 for ch in legacy_text) else ''))
+            if not ([canon(f) for f in ma.field_sigs] == [canon(f) for f in mc.field_sigs] and
+                    ma.unique_together == mc.unique_together and ma.table_name == mc.table_name):
+                ctx.fail(None, 'a legacy (pickled, version 1) row does not load to the same logical content',
+                         dict(rep, loaded_fields=[canon(f) for f in mc.field_sigs]))
 
 
 def replay(ctx, obj):
